@@ -112,7 +112,12 @@ def gen_tables():
     # the container groups the backend constructors open, by name: Props/C02Containers.lean
     out6 = os.path.join(LEAN, 'NixModel', 'Gen', 'Containers.lean')
     rc6, o6 = sh([sys.executable, os.path.join(VERIF, 'gen', 'extract_containers.py'), REPO, out6])
-    return rc6 == 0, o + o2 + o3 + o4 + o5 + o6
+    if rc6 != 0:
+        return False, o + o2 + o3 + o4 + o5 + o6
+    # the guards of the front-end create functions (name / type check, duplicate query, order): Props/C08Guards.lean
+    out7 = os.path.join(LEAN, 'NixModel', 'Gen', 'CreateGuards.lean')
+    rc7, o7 = sh([sys.executable, os.path.join(VERIF, 'gen', 'extract_createguards.py'), REPO, out7])
+    return rc7 == 0, o + o2 + o3 + o4 + o5 + o6 + o7
 
 def lake(target):
     env = dict(os.environ)
